@@ -1,6 +1,7 @@
 import BadgerModel.ManifestPb
 import BadgerModel.Bloom
 import BadgerModel.Trie
+import BadgerModel.Key
 import BadgerModel.Driver.Util
 /-!
 Engines of `bmd_aux`: `manifest` (stateful), `bloom` (stateless), `trie` (stateful).
@@ -234,8 +235,41 @@ def bloomStep (line : String) : String :=
 
 /-! ## trie -/
 
+/-- `publisher` (publisher.go) as far as the trie is concerned: `newSubscriber` registers the
+    subscriber *before* adding its matches (a parse error leaves it registered with the matches
+    added so far), `deleteSubscriber` deletes every match (errors ignored), `publishUpdates`
+    queries the trie with the entry's **internal** key (user key ++ 8 timestamp bytes) — this is
+    finding F10; when the fix (`y.ParseKey(e.Key)`) lands, `ppub` below must query with the user
+    key instead. -/
+structure PubState where
+  trie : Trie := Trie.empty
+  nextID : Nat := 0
+  subs : List (Nat × List (Bytes × Bytes)) := []   -- p.subscribers
+  okSubs : List Nat := []                          -- those whose newSubscriber returned nil error
+
 structure TState where
   t : Trie := Trie.empty
+  pub : PubState := {}
+
+/-- The AddMatch loop of `newSubscriber`: stops at the first error. -/
+def addMatches (t : Trie) (id : Nat) : List (Bytes × Bytes) → Trie × Bool
+  | [] => (t, true)
+  | (p, ig) :: rest =>
+    match t.addMatch p ig id with
+    | none => (t, false)
+    | some t' => addMatches t' id rest
+
+def delMatches (t : Trie) (id : Nat) : List (Bytes × Bytes) → Trie
+  | [] => t
+  | (p, ig) :: rest => delMatches ((t.deleteMatch p ig id).getD t) id rest
+
+def parseMatchWords : List String → Option (List (Bytes × Bytes))
+  | [] => some []
+  | [_] => none
+  | p :: ig :: rest =>
+    match hexArg p, hexArg ig, parseMatchWords rest with
+    | some p, some ig, some r => some ((p, ig) :: r)
+    | _, _, _ => none
 
 def idsStr (l : List Nat) : String :=
   let s := dedupSorted (sortNat l)
@@ -243,19 +277,46 @@ def idsStr (l : List Nat) : String :=
 
 def trieStep (st : TState) (line : String) : TState × String :=
   match words line with
-  | ["reset"] => ({ t := Trie.empty }, "ok")
+  | ["reset"] => ({ t := Trie.empty, pub := {} }, "ok")
+  | "psub" :: ws =>
+    match parseMatchWords ws with
+    | none => (st, "bad-op")
+    | some ms =>
+      let id := st.pub.nextID
+      let (t', ok) := addMatches st.pub.trie id ms
+      let pub' : PubState := { trie := t', nextID := id + 1, subs := (id, ms) :: st.pub.subs,
+                               okSubs := if ok then id :: st.pub.okSubs else st.pub.okSubs }
+      ({ st with pub := pub' }, if ok then toString id else "err")
+  | ["punsub", id] =>
+    match natArg id with
+    | none => (st, "bad-op")
+    | some id =>
+      match st.pub.subs.lookup id with
+      | none => (st, "ok")
+      | some ms =>
+        let pub' : PubState := { st.pub with trie := delMatches st.pub.trie id ms,
+                                             subs := st.pub.subs.filter (fun e => e.1 ≠ id),
+                                             okSubs := st.pub.okSubs.filter (· ≠ id) }
+        ({ st with pub := pub' }, "ok")
+  | ["ppub", k, ts] =>
+    match hexArg k, natArg ts with
+    | some k, some ts =>
+      -- F10: the trie is queried with the internal key
+      let ids := (st.pub.trie.get (keyWithTs k ts)).filter (fun id => st.pub.okSubs.contains id)
+      (st, idsStr ids)
+    | _, _ => (st, "bad-op")
   | ["add", p, ig, id] =>
     match hexArg p, hexArg ig, natArg id with
     | some p, some ig, some id =>
       match st.t.addMatch p ig id with
-      | some t => ({ t }, "ok")
+      | some t => ({ st with t := t }, "ok")
       | none => (st, "err")
     | _, _, _ => (st, "bad-op")
   | ["del", p, ig, id] =>
     match hexArg p, hexArg ig, natArg id with
     | some p, some ig, some id =>
       match st.t.deleteMatch p ig id with
-      | some t => ({ t }, "ok")
+      | some t => ({ st with t := t }, "ok")
       | none => (st, "err")
     | _, _, _ => (st, "bad-op")
   | ["get", k] =>
